@@ -98,7 +98,16 @@ impl<T> Receiver<T> {
             Ok(val) => Ok(Some(val)),
             #[cfg(fastrace_verif)]
             Err(_) if self.verif_recv_empty() => unreachable!(),
-            Err(_) if self.rx.is_abandoned() => Err(ChannelClosed),
+            Err(_) if self.rx.is_abandoned() => {
+                // The producer may have pushed its last items between the failed pop above and
+                // the abandonment check. Synchronize with its drop and look once more, so that
+                // those items are not destroyed together with the channel.
+                std::sync::atomic::fence(std::sync::atomic::Ordering::Acquire);
+                match self.rx.pop() {
+                    Ok(val) => Ok(Some(val)),
+                    Err(_) => Err(ChannelClosed),
+                }
+            }
             Err(_) => Ok(None),
         }
     }
